@@ -195,6 +195,16 @@ def run(repo, rep, tier):
     if not (ok and stores_fcn):
         rep.finding("R17.4", uc, uc.node, "compilation of the string expression is not guarded by `if not hasattr(self, 'fcn')` with a "
                     "store to self.fcn", stmt="compile-once guard")
+    # one namespace: eval(code, ns).  With a separate locals mapping (eval(code, g, l)) names bound there are invisible to nested
+    # scopes of the expression (generator expressions, lambdas), which resolve free names in the GLOBALS only
+    for cl in ast.walk(uc.node):
+        if isinstance(cl, ast.Call) and isinstance(cl.func, ast.Name) and cl.func.id == "eval":
+            ok = len(cl.args) == 2 and not cl.keywords
+            r4.ob(ok, f"`{ast.unparse(cl)[:40]}` evaluates in one namespace")
+            if not ok:
+                rep.finding("R17.4", uc, cl, f"`{ast.unparse(cl)[:60]}` passes the record's fields as a separate locals mapping: a generator expression or lambda inside the "
+                            f"string expression resolves its free names in the globals only, so `sum(x * k for k in range(n))` raises NameError (or silently takes a "
+                            f"pre-loaded name such as `e`) where the equivalent Python function reads the record's field", stmt="eval with separate locals")
     # the namespace a string expression is evaluated in is built afresh on every call (no state from earlier records)
     for inner in ast.walk(uc.node):
         if isinstance(inner, ast.FunctionDef) and inner is not uc.node:
